@@ -1135,8 +1135,20 @@ func (f *c11Family) genColList(rng *rand.Rand, t *c11Table, keep []string) (sel,
 	cols := t.allCols()
 	spell := func(c string) string {
 		if rng.Intn(3) == 0 {
-			if fld := c11Schema(t).LookUpField(c); fld != nil {
-				return fld.Name
+			// family D declares the same Go name at several levels: a name that several fields carry would make gorm
+			// pick ANOTHER column than the one meant here (possibly a kept key column) — spell those as db columns
+			if sch := c11Schema(t); sch != nil {
+				if fld := sch.LookUpField(c); fld != nil {
+					same := 0
+					for _, o := range sch.Fields {
+						if o.Name == fld.Name {
+							same++
+						}
+					}
+					if same == 1 {
+						return fld.Name
+					}
+				}
 			}
 		}
 		return c
@@ -1274,8 +1286,8 @@ func (f *c11Family) genOp(rng *rand.Rand, w c11World) c11Op {
 		op.Ctx = []string{"tx", "prepare", "conn", "txprepare"}[rng.Intn(4)]
 	}
 	f.sprinkleEmb(rng, t, op.Nodes)
-	if op.All && op.AllC.Kind != "" && op.AllC.Style != "scope" && t.hasEmb() && rng.Intn(4) > 0 {
-		op.AllC.Style = "scope" // stay away from the listed finding F35 most of the time
+	if op.All && op.AllC.Kind != "" && op.AllC.Style != "scope" && t.hasEmb() && c11AvoidF35() && rng.Intn(4) > 0 {
+		op.AllC.Style = "scope" // stay away from the listed finding F35 most of the time (unrepaired tree only)
 	}
 	return op
 }
